@@ -38,7 +38,21 @@ func (u *Unit) script(o *Oblig, withModel []*Term) string {
 	tb := u.m.tb
 	roots := []*Term{}
 	roots = append(roots, u.m.axioms...)
-	roots = append(roots, u.assumptions[:o.nassume]...)
+	// literals of the obligation's path condition: assumptions guarded by the
+	// negation of one of them are vacuous here and left out (always sound)
+	pathLits := map[int]bool{}
+	for _, c := range conjuncts(o.guard) {
+		pathLits[c.id] = true
+	}
+	for i, a := range u.assumptions[:o.nassume] {
+		if len(o.without) > 0 && excluded(u.assumeTags[i], o.without) {
+			continue
+		}
+		if a.op == "=>" && len(a.args) == 2 && deadGuard(tb, a.args[0], pathLits, 0) {
+			continue
+		}
+		roots = append(roots, a)
+	}
 	roots = append(roots, o.guard)
 	roots = append(roots, tb.Not(o.goal))
 	// spec definitions may mention constants/axioms (string literals): make sure
@@ -52,8 +66,8 @@ func (u *Unit) script(o *Oblig, withModel []*Term) string {
 	sb.WriteString("(set-option :produce-models true)\n(set-logic ALL)\n")
 	sb.WriteString(u.m.Preamble())
 	// constants used only inside spec bodies (string literal arrays) need declaring too
-	specs := u.SpecDefs()
-	extra := u.specConstDecls(decls)
+	specs := u.SpecDefs(roots)
+	extra := u.specConstDecls(decls, roots)
 	sb.WriteString(decls)
 	sb.WriteString(extra)
 	sb.WriteString(specs)
@@ -72,7 +86,56 @@ func (u *Unit) script(o *Oblig, withModel []*Term) string {
 
 // specConstDecls declares free constants that occur in spec bodies but not in
 // the obligation roots (e.g. string literal arrays).
-func (u *Unit) specConstDecls(already string) string {
+// deadGuard: the guard contradicts a literal of the path condition (syntactically).
+func deadGuard(tb *TB, g *Term, lits map[int]bool, depth int) bool {
+	if depth > 6 {
+		return false
+	}
+	switch {
+	case g.op == "and" && g.vars == nil:
+		for _, c := range g.args {
+			if deadGuard(tb, c, lits, depth+1) {
+				return true
+			}
+		}
+		return false
+	case g.op == "or" && g.vars == nil:
+		for _, c := range g.args {
+			if !deadGuard(tb, c, lits, depth+1) {
+				return false
+			}
+		}
+		return true
+	}
+	if g.op == "not" {
+		return lits[g.args[0].id]
+	}
+	if n, ok := tb.tab["not|Bool,"+fmt.Sprint(g.id)]; ok {
+		return lits[n.id]
+	}
+	return false
+}
+
+func conjuncts(t *Term) []*Term {
+	if t.op == "and" && t.vars == nil {
+		return t.args
+	}
+	return []*Term{t}
+}
+
+func excluded(tag string, without []string) bool {
+	if tag == "" {
+		return false
+	}
+	for _, w := range without {
+		if tag == w || strings.HasSuffix(tag, "-"+w) {
+			return true
+		}
+	}
+	return false
+}
+
+func (u *Unit) specConstDecls(already string, roots []*Term) string {
 	var sb strings.Builder
 	seen := map[string]bool{}
 	var visit func(t *Term, formals map[string]bool, done map[int]bool)
